@@ -135,6 +135,25 @@ def run(ctx):
         R.ob('C01.1', ('Channel::call', 'guard id = request id'), ok,
              'the cancel guard carries the same id value as the queued request', [f.loc(s)],
              'guard id from ' + ', '.join(P.describe(r) for r in roots))
+    # ids are never handed out twice: in the client module the only operation on an atomic counter is that fetch_add — no store / compare_exchange / fetch_sub /
+    # swap gives an id back (a "returned" id can already have been on the wire: a late or duplicated response for it would then complete the call that reuses it)
+    from .common import in_module
+    ATOMIC_WRITES = ('store', 'swap', 'compare_exchange', 'compare_exchange_weak', 'fetch_sub', 'fetch_update', 'fetch_max', 'fetch_min', 'fetch_and', 'fetch_or', 'fetch_xor', 'fetch_nand', 'get_mut', 'into_inner')
+    rewinds = []
+    n_atomic = 0
+    for g_ in F.fns.values():
+        if F.is_derived(g_) or not in_module(g_, 'client') or in_module(g_, 'client::stub'):
+            continue
+        for b_, t_ in g_.calls():
+            c_ = strip_generics(t_.get('callee') or '')
+            if '::atomic::Atomic' not in c_ and 'sync::atomic' not in c_:
+                continue
+            n_atomic += 1
+            ty_ = (t_.get('arg_tys') or [''])[0] + (t_.get('self_ty') or '') + (t_.get('callee') or '')
+            if c_.split('::')[-1] in ATOMIC_WRITES and not any(x in ty_ for x in ('bool', 'Bool', 'Ptr', '*mut', '*const')):     # integer atomics only
+                rewinds.append(g_.loc(t_))
+    R.ob('C01.1', ('client', 'the id counter only ever advances'), not rewinds and n_atomic >= 1,
+         'no code of the client writes an atomic counter other than by fetch_add: an id, once drawn, is never handed out again', rewinds, '%d atomic operations in the client' % n_atomic)
     # Clone shares the counter: the field(s) on the way to the atomic are cloned from self, and an Arc lies on that way
     clone = F.trait_method('Clone', 'client::Channel', 'clone')
     aggs = list(clone.aggregates('client::Channel'))
